@@ -46,6 +46,8 @@ DoSort == StepOf("sort")          DoTake == StepOf("take")
 DoAggregate == StepOf("aggregate") DoGroup == StepOf("group")
 DoWindow == StepOf("window")      DoJoin == StepOf("join")
 DoAppend == StepOf("append")
+\* SurplusArg / UnknownNamedArg / ScalarAsRelation / RelationAsScalar
+DoBad == StepOf("bad")
 
 Verdict(ok, skip, what) ==
   /\ IF skip THEN nskip' = nskip + 1 /\ UNCHANGED <<nacc, nrej>>
@@ -87,7 +89,7 @@ Failure ==
 
 TNext == \/ Database \/ Reset
          \/ DoFrom \/ DoSelect \/ DoDerive \/ DoFilter \/ DoSort \/ DoTake
-         \/ DoAggregate \/ DoGroup \/ DoWindow \/ DoJoin \/ DoAppend
+         \/ DoAggregate \/ DoGroup \/ DoWindow \/ DoJoin \/ DoAppend \/ DoBad
          \/ Observe \/ CompileError \/ Failure
 
 TraceSpec == TInit /\ [][TNext]_vars
